@@ -265,6 +265,9 @@ type HandlerSpec struct {
 	Msg      string    `json:"msg"`       //
 	FailCode int       `json:"fail_code"` // final status when a stream call failed
 	Details  bool      `json:"details,omitempty"` // attach status details to a non-OK final status
+	// PassErr: when a stream call failed the handler returns that call's error
+	// as it got it ("return err"), instead of a status of its own.
+	PassErr bool `json:"pass_err,omitempty"`
 }
 
 // HLog is what the scripted handler observed. It is written by the goroutine
@@ -649,6 +652,62 @@ func (w *World) stream(full string, md protoreflect.MethodDescriptor, stream grp
 					next++
 				}
 			}
+		case "duplex":
+			// A second goroutine of the handler receives until the request
+			// stream ends while this one sends every response: "it is safe
+			// to have a goroutine calling SendMsg and another goroutine
+			// calling RecvMsg on the same stream at the same time"
+			// (grpc.ServerStream). What the receiver saw is merged into the
+			// log once it has finished.
+			var (
+				fin   flagEnabler
+				done  = make(chan struct{})
+				rRecv []proto.Message
+				rCall []callRec
+				rEOF  bool
+				rErr  error
+				rN    int
+			)
+			h2 := rs.h2Slot
+			go func() {
+				defer close(done)
+				defer fin.set()
+				w.sim.Bind(h2)
+				defer w.sim.Unbind()
+				for h2.Yield("h2.recv", core.Always, 0) {
+					m := newMsgByDesc(md.Input())
+					start := w.sim.StepNo()
+					err := stream.RecvMsg(m)
+					rCall = append(rCall, callRec{Kind: 'R', Start: start, End: w.sim.StepNo(), Err: err, GotMsg: err == nil})
+					rN++
+					if err == io.EOF {
+						rEOF = true
+						return
+					} else if err != nil {
+						rErr = err
+						return
+					}
+					rRecv = append(rRecv, m)
+					l.setRecv(len(rRecv), false)
+				}
+			}()
+			for next < len(spec.Resps) && !sendFailed && yield("h.send") {
+				sendOne(next)
+				next++
+			}
+			if !slot.Yield("h.join", &fin, 0) {
+				torn, failed = true, true
+			}
+			<-done
+			if len(rCall) > 0 && rCall[len(rCall)-1].Err != nil && rCall[len(rCall)-1].Err != io.EOF && l.SendErr != nil && ctx.Err() != nil {
+				w.sim.Count(cDuplexAfterCtxEnd) // (approximately: both directions ended in an error)
+			}
+			l.Recv, l.Calls, l.RecvCalls = append(l.Recv, rRecv...), append(l.Calls, rCall...), l.RecvCalls+rN
+			l.RecvEOF, recvDone = rEOF, true
+			if rErr != nil {
+				l.RecvErr, failed = rErr, true
+			}
+			l.setRecv(len(l.Recv), true)
 		case "header":
 			if yield("h.header") {
 				// (on a stream that has been cancelled already - a backend
@@ -704,6 +763,20 @@ func (w *World) stream(full string, md protoreflect.MethodDescriptor, stream grp
 	}
 	l.CtxErrEnd = ctx.Err()
 	err := finalStatus(spec, failed)
+	if spec.PassErr && l.RecvErr != nil {
+		err = l.RecvErr
+	} else if spec.PassErr && l.SendErr != nil {
+		err = l.SendErr
+	}
+	if spec.PassErr && failed {
+		if rs.spec.Poison && l.RecvErr != nil {
+			w.sim.Count(cUndecodablePassedOn)
+		}
+		// (no looking at the text here: what the error says is for whoever renders it)
+		l.Returned, l.RetCode = true, status.Code(err)
+		l.setReturned()
+		return err
+	}
 	st, _ := status.FromError(err)
 	l.Returned, l.RetCode, l.RetMsg = true, st.Code(), st.Message()
 	l.setReturned()
@@ -779,3 +852,13 @@ func addZeroMessages(r *core.Rand, sp *ReqSpec) {
 		}
 	}
 }
+
+// flagEnabler gates a park on something another goroutine of the same request
+// announces; the announcement itself orders nothing (the channel next to it does).
+type flagEnabler struct{ v bool }
+
+//go:norace
+func (f *flagEnabler) set() { f.v = true }
+
+//go:norace
+func (f *flagEnabler) Enabled(int) bool { return f.v }
